@@ -68,3 +68,10 @@ package jsonapi
 //@ requires nonnil: r != nil
 //@ ensures in-range: 0 <= i && i < len(*r) ==> result == (*r)[i]
 //@ ensures out-of-range: !(0 <= i && i < len(*r)) ==> result == nil
+
+// A Resources collection carries no type of its own: GetType is the zero Type and reads
+// nothing (no precondition: callable on a nil receiver).
+//@ func Resources.GetType
+//@ props C09
+//@ modifies
+//@ ensures zero: result.Name == "" && result.Attrs == nil && result.Rels == nil && result.NewFunc == nil
